@@ -44,13 +44,13 @@ add("C06", "E1-explore",
     E1NOTE, MC, "DESIGN.md 4 C06")
 add("C11", "E1-explore",
     "Every (state, event) pair of the bounded space whose call raises - the alphabet deliberately contains refusal inputs (missing time/track id/position, existing id, unknown node/edge, merge / third child / non-forward without force, forced edits whose later step fails, protected attributes, bad swaps, paint with a refused nested add) - is (in uint8 worlds also node ids the label array cannot hold) is followed by a comparison of the full snapshot (graph, raw attributes, array, lookups, registry, both history stacks structurally; the id counters are excluded) with the one taken before the call, and by a check that no refresh was emitted.",
-    E1NOTE + " For paint the driver restores the painted pixels first (the property's proviso).",
+    E1NOTE + " For paint the driver restores the painted pixels first (the property's proviso). Also objects imported from CSV / GEFF files; one genuine defect on objects imported from a node table + label image is recorded as KF-C11-refused-paint-drops-unregistered-attribute.",
     MC, "DESIGN.md 4 C11")
 add("C20", "E1-explore",
     "A counting callback on tracks.refresh is read around every call in the bounded space: accepted top-level action / successful undo / redo = exactly one emission (payload = new node for add-node and node-creating paint), refused action = none. Nested composite actions are covered through forced add-edge/add-node, swap and paint events (incl. a stroke that changes nothing). Histories of 3 and 300 accepted edits followed by complete unwinding / rewinding / redo at the top / a new edit are judged call by call. All call sequences of the C02 menus are also run with the counter read on every call: an emission from an undo/redo for which the timeline has nothing to step to is a violation whatever the call returns.",
     E1NOTE, MC, "DESIGN.md 4 C20")
 
-SEGNOTE = "Bounded: 6-7 hand seeds with rectangular masks in 4 frames of 4x6 (2D) / 2x4x6 (3D) pixels, stroke menu of DESIGN.md 3.2 (inside / whole / straddling / two masks / background x erase / every label of the frame / new label x track ids x force), BFS depth 1-3. skimage.regionprops trusted."
+SEGNOTE = "Worlds include objects re-imported from GEFF files (features recomputed, loaded, or recomputed from stale values). Bounded: 6-7 hand seeds with rectangular masks in 4 frames of 4x6 (2D) / 2x4x6 (3D) pixels, stroke menu of DESIGN.md 3.2 (inside / whole / straddling / two masks / background x erase / every label of the frame / new label x track ids x force), BFS depth 1-3. skimage.regionprops trusted."
 E2M = "explicit-state model checking of the implementation against a reference model (exhaustive enumeration of all call sequences up to a length bound, lock-step list+cursor / set model, no state merging)"
 
 add("C02", "E2-histories",
